@@ -112,18 +112,20 @@ def gen(rng, n, tier):
             for e in edges:
                 e['z'] = [float(rng.randint(0, 60)) for _ in e['geom']]
         out.append({'edges': edges, 'tracks': tracks, 'radius': radius, 'tmode': rng.choice(['inc', 'inc', 'equal', 'dec', 'shuffle']), 'prior': rng.choice([None, None, [4.0, 1.0], [0.25, 3.0], [8.0, 0.5]]), 'noise': rng.choice([1.0, 5.0, 50.0]),
-                    'res': rng.choice([None, [3, 3], [5, 1], [2.5, 7], [1.5, 1.5]]), 'margin': rng.choice([0.05, 0.15, 0.5]), 'densify': rng.random() < 0.3})
+                    'res': rng.choice([None, [3, 3], [5, 1], [2.5, 7], [1.5, 1.5]]), 'margin': rng.choice([0.05, 0.15, 0.5]), 'densify': rng.random() < 0.3, 'snap': rng.random() < 0.25})
     return out
 
 
 def build(case, _dense=False):
     from tracklib import Obs, ObsTime, ENUCoords, Track, Network, Node, Edge, SpatialIndex, computeAbsCurv
     net = Network()
+    # snapped junctions: the node of a junction is a few decimetres away from the digitised ends of the roads that meet there; distances along an edge are measured on its geometry
+    snap = (lambda c: ENUCoords(c.getX() + 0.25, c.getY() - 0.15, c.getZ())) if case.get('snap') else (lambda c: c)
     for k, e in enumerate(case['edges']):
         tr = Track([Obs(ENUCoords(x, y, z)) for (x, y), z in zip(e['geom'], e.get('z') or [0.0] * len(e['geom']))])
         computeAbsCurv(tr)
         ed = Edge(k + 1, tr); ed.orientation = e['o']; ed.weight = tr.length()
-        net.addEdge(ed, Node(e['s'], tr.getFirstObs().position), Node(e['t'], tr.getLastObs().position))
+        net.addEdge(ed, Node(e['s'], snap(tr.getFirstObs().position)), Node(e['t'], snap(tr.getLastObs().position)))
     if case.get('densify') and not _dense:
         # the network was digitised more finely (an extra vertex near the middle of every segment) and is generalised with the documented Network.simplify() before use, the abscissas being
         # computed afterwards as for any network: the edges of the network are whatever polylines the simplification returned (reported with the observations and used by the model and the oracle).
@@ -140,7 +142,7 @@ def build(case, _dense=False):
             tr = Track([Obs(ENUCoords(x, y, z)) for x, y, z in pts])
             computeAbsCurv(tr)
             ed = Edge(k + 1, tr); ed.orientation = e['o']; ed.weight = tr.length()
-            net2.addEdge(ed, Node(e['s'], tr.getFirstObs().position), Node(e['t'], tr.getLastObs().position))
+            net2.addEdge(ed, Node(e['s'], snap(tr.getFirstObs().position)), Node(e['t'], snap(tr.getLastObs().position)))
         net2.simplify(0.3)
         net = net2
         for k in range(len(case['edges'])):
